@@ -492,7 +492,8 @@ def replay(data):
     ops = data["replay"].get("ops", [])
     h = vlib.build_harness("c07")
     impl, rc, err = vlib.run_lines([str(h)], ops)
-    mon, _, _ = vlib.run_model(PID, ["mon " + r[3:].split(" uff ")[0] if r.startswith("ok ") else "x" for r in impl])
+    mon, _, _ = vlib.run_model(PID, [("rasmon %s | %s" % (o[4:], r[3:]) if o.startswith("ras ") else "mon " + r[3:].split(" uff ")[0])
+                                     if r.startswith("ok ") else "x" for o, r in zip(ops, impl)])
     for o, r, m in zip(ops, impl, mon):
         print(o, "->", r, "->", m)
     return 0
